@@ -109,7 +109,8 @@ func c01Case(t *rapid.T, ev *evProp, gi *GroupInfo) {
 const c01Rule = "case = (group, scalars a,b from edge-biased classes {0,1,2,q-1,q-2,(q±1)/2,2^k,2^k±1 on limb/window boundaries,leading-zero,short,window patterns,uniform}, " +
 	"points P,Q,R from {O,B,-B,k*B,a*B,Pick,Embed,Hash,decoded,sum/diff/double/multiple of earlier points, pairing outputs for GT}, Q=P forced in 1/6 of cases); " +
 	"24 identities are evaluated per case, each asserted by Equal in both directions and by identical encodings, plus 5 comparisons with the math/big reference model where one exists. " +
-	"non-trivial = an operand is an edge value, P=Q, or an operand is the result of earlier arithmetic (non-normalised internals); distinct = distinct rendered case"
+	"non-trivial = an operand is an edge value, P=Q, or an operand is the result of earlier arithmetic (non-normalised internals); distinct = distinct rendered case" +
+	" Added after the sensitivity rounds: registry includes a cofactor-R>2 residue group and 'short coordinate' multiples of B; after every case values obtained from Base()/Null() are overwritten in place and the constants are compared with encodings recorded at process start."
 
 func TestC01_Laws(t *testing.T) {
 	ev := evFor("C01")
